@@ -49,7 +49,10 @@ M = [
     ("m31", "C14", P + "xtce/definitions.py", "if packet.raw_data.pos != len(packet.raw_data) * 8:", "if packet.raw_data.pos > len(packet.raw_data) * 8:"),
     # (m32 is equivalent w.r.t. C14: a bytes read running up to 7 bits past the end leaves the cursor beyond the packet, which is flagged)
     ("m32", "C14", P + "packets.py", "        if self.pos + nbits > len(self) * 8:\n            raise ValueError(\"End of packet reached\")", "        if self.pos + nbits > len(self) * 8 + 7:\n            raise ValueError(\"End of packet reached\")"),
+    # (m33: a PRIVATE attribute left on the definition is not "modifying the definition" as the property observes it - its XML and public
+    #  state are unchanged -, see DESIGN.md 0.4; m33b leaves a PUBLIC attribute behind)
     ("m33", "C11", P + "xtce/definitions.py", "            except UnrecognizedPacketTypeError as e:\n                logger.debug", "            except UnrecognizedPacketTypeError as e:\n                self._last_error = e\n                logger.debug"),
+    ("m33b", "C11", P + "xtce/definitions.py", "            except UnrecognizedPacketTypeError as e:\n                logger.debug", "            except UnrecognizedPacketTypeError as e:\n                self.root_container_name = self.root_container_name + ''\n                self.last_unrecognized = packet.raw_data.apid\n                logger.debug"),
     ("m34", "C09", P + "xtce/comparisons.py", "            useCalibratedValue=str(self.use_calibrated_value).lower(),\n            comparisonOperator=self.operator,", "            comparisonOperator=self.operator,"),
     ("m35", "C09", P + "xtce/calibrators.py", "            extrapolate=str(self.extrapolate).lower(),", "            extrapolate=\"false\","),
     ("m36", "C09", P + "xtce/encodings.py", "                intercept = self.linear_adjuster(0)\n                slope = self.linear_adjuster(1) - intercept", "                intercept = self.linear_adjuster(0)\n                slope = self.linear_adjuster(1)"),
@@ -74,11 +77,12 @@ M = [
      "raw_data += p[raw_packet_data.HEADER_LENGTH_BYTES + secondary_header_bytes + skip_header_bytes:]"),
     ("m48", "C18", P + "xarr.py", "            packet_generator = list(xtce_packet_definition.packet_generator(f, **packet_generator_kwargs))",
      "            packet_generator = list(xtce_packet_definition.packet_generator(f, **{k: v for k, v in packet_generator_kwargs.items() if k != 'skip_header_bytes'}))"),
+    ("m49", "C06", P + "xtce/comparisons.py", "            required_value = t_comparate(self.required_value)", "            required_value = t_comparate(float(self.required_value))"),
     ("m43", "C20", P + "common.py", "obj.raw_value = raw_value if raw_value is not None else value", "obj.raw_value = raw_value or value"),
 ]
 
 
-EQUIVALENT = {"m17", "m32", "m41", "m41b", "m42"}
+EQUIVALENT = {"m17", "m32", "m33", "m41", "m41b", "m42"}
 
 
 def main():
